@@ -36,6 +36,16 @@ def scenarios(seed, tier):
         r2 = random.Random(rnd.getrandbits(48))
         s = gen.gen_portfolio(r2, tmax=8 if tier == 'quick' else 14, tz_prob=0.1, allow_periodic=False, allow_freq=False)
         s['extra_seed'] = r2.getrandbits(40)
+        if i % 6 == 5:
+            # a unit that is running at the start and committed (remaining minimum runtime) beyond the end of its own window
+            s['assets'] = [a for a in s['assets'] if a['type'] not in ('OrderBook', 'StructuredAsset')]
+            nd = [x for x in s['nodes'] if not x.endswith('_i1')][0]
+            pl = gen.gen_plant(r2, s['grid'], s['prices'], s['grid']['T_nominal'], 'cpl', [nd], chp=False, allow_mip=True)
+            pl['args'].update({'min_cap': pl['args'].get('min_cap', 1.0), 'min_runtime': float(s['grid']['T_nominal'] + 3), 'time_already_running': float(r2.randint(1, 2)),
+                               'start_costs': gen.q8(r2, 1, 4)})
+            for k_ in ('time_already_off', 'min_downtime', 'ramp', 'last_dispatch', 'start', 'end'):
+                pl['args'].pop(k_, None)
+            s['assets'].append(pl)
         if i % 3 == 0 and not any(a['type'] == 'OrderBook' for a in s['assets']):
             nd = r2.choice([x for x in s['nodes'] if not x.endswith('_i1')])
             s['assets'].insert(r2.randint(0, len(s['assets'])), gen.gen_orderbook(r2, s['grid'], s['prices'], s['grid']['T_nominal'], 'book', nd))
@@ -169,6 +179,43 @@ def run_meta(scn, r):
     if 'windowed-asset' in feats:
         r['nontrivial'] = True
     rnd = random.Random(scn['extra_seed'])
+    # (d) the part of the horizon after every asset's window matters to nobody: with all windows ending k steps before the end of
+    #     the horizon, the optimum equals the optimum on the horizon cut there
+    g0 = base['grid']
+    T0 = g0['T_nominal']
+    if T0 >= 4 and not any(a['type'] in ('OrderBook', 'StructuredAsset') for a in base['assets']):
+        try:
+            k_cut = rnd.randint(1, max(1, T0 // 3))
+            pe = gen.P(g0, T0 - k_cut)
+            if gen.ok_local(pe, g0):
+                early = copy.deepcopy(base)
+                for a in early['assets']:
+                    tgt = a['base']['args'] if a['type'] == 'ScaledAsset' else a['args']
+                    if 'end' not in tgt or pd.Timestamp(tgt['end']['$dt']) > pe:
+                        tgt['end'] = gen.dtv(pe)
+                    if a['type'] == 'ScaledAsset':
+                        a['args']['end'] = gen.dtv(pe)
+                    if 'start' in tgt and pd.Timestamp(tgt['start']['$dt']) >= pe:
+                        tgt.pop('start')
+                cut = copy.deepcopy(early)
+                cut['grid'] = dict(g0)
+                cut['grid']['end'] = g0['_pts'][T0 - k_cut]
+                gen.fix_grid(cut['grid'])
+                cut['prices'] = {k_: list(v_)[:T0 - k_cut] for k_, v_ in early['prices'].items()}
+                re_, rc_ = pf.setup_mono(early), pf.setup_mono(cut)
+                if rc_['tg'].T == T0 - k_cut and re_['tg'].T == T0:
+                    pf.solve_rec(re_)
+                    pf.solve_rec(rc_)
+                    r['evaluated'] += 2
+                    feats.append('horizon-cut')
+                    a_, b_ = re_['res'], rc_['res']
+                    if isinstance(a_, str) != isinstance(b_, str):
+                        viol('all windows end %d steps before the end of the horizon: optimisation on the full horizon %s, on the horizon cut there %s' % (
+                            k_cut, a_ if isinstance(a_, str) else 'successful', b_ if isinstance(b_, str) else 'successful'), what='horizon_cut_status')
+                    elif not isinstance(a_, str) and abs(float(a_.value) - float(b_.value)) > 2e-6 * max(1.0, abs(float(b_.value))):
+                        viol('all windows end %d steps before the end of the horizon: optimum %.9g on the full horizon, %.9g on the horizon cut there' % (k_cut, float(a_.value), float(b_.value)), what='horizon_cut_value')
+        except Exception as e:
+            feats.append('horizon-cut-skip:' + impl.err_class(e))
     # (b') an extra ORDER lying entirely outside the horizon, placed anywhere in an existing order book (also before
     #      orders that do deliver), is inert
     obs = [k for k, a in enumerate(base['assets']) if a['type'] == 'OrderBook']
